@@ -107,3 +107,34 @@ def methods_writing_operations(prog: Program) -> set[str]:
                 direct.add(name)
                 changed = True
     return direct
+
+
+def at_least_one(v, pc) -> bool:
+    """Abstract lower bound: is the value provably >= 1 on this path?"""
+    from .values import Const, Sym
+
+    if isinstance(v, Const):
+        return isinstance(v.value, (int, float)) and not isinstance(v.value, bool) and v.value >= 1
+    if isinstance(v, Sym):
+        d = dict(pc)
+        k = v.key()
+        if d.get(f"{k} < 1") is False or d.get(f"{k} >= 1") is True or d.get(f"{k} <= 0") is False or d.get(f"{k} > 0") is True:
+            return True
+        if v.parts and v.parts[0] == "MAX":
+            return any(at_least_one(x, pc) for x in v.parts[1])
+    return False
+
+
+def attempt_expr_ok(v, pc) -> bool:
+    """attempt handed to a strategy / logger: recorded attempt + 1, or 1 when nothing is recorded."""
+    from .values import Const, Sym
+
+    if isinstance(v, Const):
+        return v.value == 1
+    if isinstance(v, Sym) and v.parts and v.parts[0] == "BINOP" and v.parts[1] == "+":
+        l, r = v.parts[2], v.parts[3]
+        if isinstance(r, Const) and r.value == 1 and isinstance(l, Sym) and l.k.endswith("step_details.attempt") and l.k.startswith("op@"):
+            return True
+        if isinstance(l, Const) and l.value == 1 and isinstance(r, Sym) and r.k.endswith("step_details.attempt"):
+            return True
+    return False
